@@ -860,6 +860,14 @@ pub fn cyclic_unwound(wd: &World, id: u32, closure_ran: bool) {
             let d = format!("new_cyclic for #{} unwound (closure ran: {}) but its box is still allocated", id, closure_ran);
             drop(m);
             wd.err("C14", "cyclic_box_leaked", sig, d);
+            return;
+        }
+        // ... and so must the side record, unless the closure saved clones of the Weak (then: when the last one goes)
+        let side = o.side_addr;
+        let saved = m.weak_holders(id).1;
+        if side != 0 && saved == 0 && m.sides.contains_key(&side) {
+            drop(m);
+            wd.err("C14", "cyclic_side_record_leaked", format!("cyclic_side_record_live_after_unwind:closure_ran={}", closure_ran), format!("new_cyclic for #{} unwound (closure ran: {}), no clone of its Weak exists, but the weak side record is still allocated", id, closure_ran));
         }
     }
 }
@@ -1535,6 +1543,17 @@ pub fn check_qp(wd: &World, at: &str) {
             #[cfg(feature = "weak-ptrs")]
             if o.side_addr != 0 && !o.box_live && m.weak_holders(o.id).1 == 0 && matches!(o.val, Val::Dropped | Val::Unwrapped | Val::Vanished) {
                 wd.err("C09", "side_record_leaked", "side_record_not_released".into(), format!("the side record of #{} is still allocated although its box and all its Weak pointers are gone (at {})", o.id, at));
+            }
+        }
+    }
+    // a new_cyclic whose closure panicked: "all memory is released" also holds after the panic (C14), i.e. the side
+    // record goes when the last saved clone of the Weak goes
+    #[cfg(feature = "weak-ptrs")]
+    if degraded {
+        let m = wd.m.borrow();
+        for o in &m.objs {
+            if o.val == Val::Vanished && o.side_addr != 0 && !o.box_live && m.weak_holders(o.id).1 == 0 && m.sides.contains_key(&o.side_addr) {
+                wd.err("C14", "cyclic_side_record_leaked", "cyclic_side_record_live_after_last_weak".into(), format!("the side record of #{} (new_cyclic closure panicked) is still allocated although every clone of its Weak is gone (at {})", o.id, at));
             }
         }
     }
